@@ -96,6 +96,24 @@ Theorem C10_amortised :
 Proof. exact push_run_log. Qed.
 
 
+(* ---- histories ---- *)
+From AV.Model Require Import Interp.
+From AV.Spec Require Import WorldSpec.
+From AV.Proofs Require Import WorldProofs.
+(** WHOLE HISTORIES: reserve / reserve_exact / shrink_to_fit / shrink_to are part of the history fragment of AV.Props.C01 - in the list specification they leave every vector's elements unchanged (sp_capacity) and C01_history_refines shows the machine agrees, whatever is interleaved with them; and len <= capacity holds for every vector in every state of every history. *)
+Theorem C10_history_len_le_cap :
+  forall (c : cfg) (ops : list op) (w : world) (st : astate) (rs : list sres),
+         cfg_wf c ->
+         WRep c w st ->
+         spec_run c st (unext (wuw w)) ops = Some rs ->
+         Admissible c w ops ->
+         Forall
+           (fun sr : step_result =>
+            forall (n : nat) (v : vec), get_vec n (sr_world sr) = Some v -> vlen v <= vcap v)
+           (run_hist c ops w).
+Proof. exact history_len_le_cap. Qed.
+
+(* ---- end histories ---- *)
 Print Assumptions C10_reserve_noop.
 Print Assumptions C10_reserve_grows.
 Print Assumptions C10_reserve_overflow.
@@ -105,3 +123,4 @@ Print Assumptions C10_shrink_to_fit.
 Print Assumptions C10_doubling.
 Print Assumptions C10_push_follows_growth_policy.
 Print Assumptions C10_amortised.
+Print Assumptions C10_history_len_le_cap.
